@@ -1876,6 +1876,12 @@ func (t *Topic) anotherUserSub(sess *Session, asUid, target types.Uid, asChan bo
 		return nil, errors.New("topic access denied: cannot subscribe reader to channel")
 	}
 
+	if t.cat == types.TopicCatMe || t.cat == types.TopicCatFnd {
+		// 'me' and 'fnd' belong to one user: nobody can be invited, not even by that user (who holds 'S' there).
+		sess.queueOut(ErrPermissionDeniedReply(pkt, now))
+		return nil, errors.New("topic access denied: cannot invite to 'me' or 'fnd'")
+	}
+
 	// Check if topic is suspended.
 	if t.isReadOnly() {
 		sess.queueOut(ErrPermissionDeniedReply(pkt, now))
